@@ -287,7 +287,7 @@ func init() {
 	wf := map[string]string{}
 	for _, n := range []string{"Client.init", "Client.initWork", "Client.skip", "Client.Lookup", "Client.mergeLatest", "Client.mergeLatestMem", "Client.checkTrees",
 		"Client.checkRecord", "Client.readTile", "Client.markTileSaved", "Client.tileCacheKey", "Client.tileRemotePath",
-		"tileReader.Height", "tileReader.ReadTiles", "tileReader.SaveTiles"} {
+		"tileReader.Height", "tileReader.ReadTiles", "tileReader.SaveTiles", "Client.SetTileHeight", "Client.SetGONOSUMDB"} {
 		wf[n] = worldT
 	}
 	g2lUnits = append(g2lUnits, &g2lUnit{
@@ -311,7 +311,8 @@ func init() {
 		foreignTypes: map[string]string{"tlog.Tile": "Tile", "tlog.Tree": "(Tree H)", "tlog.HashReader": "(Tree H)", "tlog.TreeProof": "(List H)", "sync.WaitGroup": "Unit",
 			"note.Verifiers": "(Bytes → Int → (Verifier × Option String))", "note.Verifier": "Verifier", "note.Note": "Note"},
 		fns: []string{"Client.tileCacheKey", "Client.tileRemotePath", "Client.markTileSaved", "Client.readTile", "tileReader.Height", "tileReader.ReadTiles", "tileReader.SaveTiles",
-			"Client.checkTrees", "Client.checkRecord", "Client.mergeLatestMem", "Client.mergeLatest", "Client.initWork", "Client.init", "Client.skip", "Client.Lookup"},
+			"Client.checkTrees", "Client.checkRecord", "Client.mergeLatestMem", "Client.mergeLatest", "Client.initWork", "Client.init", "Client.skip", "Client.Lookup",
+			"Client.SetTileHeight", "Client.SetGONOSUMDB"},
 		worldCalls: map[string]string{"c.ops.ReadRemote": "E.readRemote", "c.ops.ReadCache": "E.readCache", "c.ops.ReadConfig": "E.readConfig",
 			"c.ops.WriteConfig": "E.writeConfig", "c.ops.WriteCache": "E.writeCache", "c.ops.SecurityError": "E.securityError",
 			"tlog.TreeHash": "treeHashW E fuel:M", "tlog.ProveTree": "proveTreeW E fuel:M", "thr.ReadHashes": "readHashesW E fuel:M:recv",
